@@ -141,7 +141,10 @@ impl Prop for PPrintf {
                         if rng.chance(1, 2) {
                             fmt.push(45);
                         }
-                        fmt.extend(format!("{}", 1 + rng.below(25)).chars().map(|c| c as u32));
+                        // mostly column widths as people write them; now and then a wide column (the padding is written
+                        // in pieces: a value of 1..8 characters in 64, 65.., 128.., 192.. columns meets every remainder)
+                        let w = if rng.chance(1, 4) { *rng.pick(&[64usize, 128, 192, 256]) + rng.below(9) } else { 1 + rng.below(25) };
+                        fmt.extend(format!("{}", w).chars().map(|c| c as u32));
                     }
                     fmt.push(rng.pick(&dirs).chars().next().unwrap() as u32);
                 }
